@@ -345,7 +345,7 @@ DEVIATIONS = ['wrong-expected-hash', 'flip-data-bit', 'change-bit-length', 'swap
               'root-ordinary', 'root-pruned', 'root-merkle-update', 'transit-bitflip']
 ACCOUNT_DEVIATIONS = ['claim-other-cell', 'claim-pruned-carrying-hash', 'claim-skeleton-with-pruned-children', 'wrong-block-hash', 'other-address',
                       'flip-data-bit', 'substitute-pruned-hash', 'swap-refs', 'root-ordinary', 'transit-bitflip', 'state-from-other-block',
-                      'missing-root', 'roots-swapped', 'root-merkle-update']
+                      'missing-root', 'roots-swapped', 'root-merkle-update', 'claim-neighbouring-reference']
 
 
 class ProofSt:
@@ -377,7 +377,7 @@ class ProofWorld(HistoryWorld):
 
     def make_config(self, rng, leg, run_index):
         return {'world_seed': rng.getrandbits(64), 'naccounts': rng.choice([1, 1, 2, 3, 6, 12, 40]), 'tree': rng.choice([1, 3, 10, 40, 150]), 'steps': rng.choice([4, 8, 12]),
-                'byz_rate': rng.choice([0.0, 0.5, 0.8])}
+                'byz_rate': rng.choice([0.0, 0.5, 0.8]), 'extra_currencies': rng.random() < 0.4}
 
     def new_state(self, ctx):
         cfg = ctx.cfg
@@ -386,6 +386,7 @@ class ProofWorld(HistoryWorld):
         st.tree = rc.random_tree(wr, cfg['tree'])
         st.wc = wr.choice([0, 0, -1])
         st.accounts = {}
+        xc = bool(cfg.get('extra_currencies'))
         for _ in range(cfg['naccounts']):
             k = wr.getrandbits(256)
             if wr.random() < 0.3 and st.accounts:
@@ -393,8 +394,8 @@ class ProofWorld(HistoryWorld):
                 base = wr.choice(sorted(st.accounts))
                 low = wr.randint(1, 200)
                 k = (base >> low << low) | wr.getrandbits(low)
-            st.accounts[k] = rc.make_account(wr, st.wc, k.to_bytes(32, 'big'))
-        st.state = rc.make_shard_state(wr, st.accounts, st.wc)
+            st.accounts[k] = rc.make_account(wr, st.wc, k.to_bytes(32, 'big'), extra_currencies=xc)
+        st.state = rc.make_shard_state(wr, st.accounts, st.wc, extra_currencies=xc)
         st.old = rc.random_tree(wr, wr.choice([1, 4, 9]))
         st.block = rc.make_block(wr, st.old, st.state, partial=wr.random() < 0.6)
         # a second block/state (for cross-block substitutions)
@@ -695,15 +696,25 @@ class ProofWorld(HistoryWorld):
         addr_key = key
         path = rc.account_path(st.state, key)
         leaf_path = path
+        acct_path = rc.account_path(st.state, key, to_account=True)
         # honest prover: the account cell itself is usually pruned in the state proof (the full state is sent separately)
         prng = random.Random(op['prune_seed'])
         state_child, npr = self._prune(st.state, op['prune_seed'], op['prune_frac'], keep_path=leaf_path)
         if prng.random() < 0.7:
             try:
-                state_child = rc.rebuild(state_child, {leaf_path + (0,): pruned_of(acct, 1)})
+                state_child = rc.rebuild(state_child, {acct_path: pruned_of(acct, 1)})
                 ctx.probe('account-cell-pruned-in-proof')
             except RCellError:
                 pass
+        if acct_path[-1] == 1:
+            ctx.probe('leaf-with-extra-currencies')
+            if prng.random() < 0.5:
+                # a real prover never visits the leaf's extra-currency dictionary: it arrives pruned
+                try:
+                    state_child = rc.rebuild(state_child, {leaf_path + (0,): lambda c: pruned_of(c, 1) if c.mask == 0 and not c.special else c})
+                    ctx.probe('leaf-extra-currency-dictionary-pruned')
+                except RCellError:
+                    pass
         block_child, npr2 = self._prune(st.block, op['prune_seed'] ^ 0x5555, op['prune_frac'], keep_prefixes=[(2,)])
         if npr or npr2:
             ctx.probe('pruned-subtrees')
@@ -722,6 +733,17 @@ class ProofWorld(HistoryWorld):
                 claimed = RCell(acct.bits, [pruned_of(r, 1) for r in acct.refs])
             else:
                 claimed = pruned_of(acct, 1)
+        elif dk == 'claim-neighbouring-reference':
+            # the leaf's other reference (its extra-currency dictionary), or else a child of the account itself
+            leaf = st.state
+            for i in leaf_path:
+                leaf = leaf.refs[i]
+            if acct_path[-1] == 1:
+                claimed = leaf.refs[0]
+            elif acct.refs:
+                claimed = acct.refs[drng.randrange(len(acct.refs))]
+            else:
+                claimed = RCell(leaf.bits, ())
         elif dk == 'wrong-block-hash':
             b = bytearray(blk_hash)
             b[dev['seed'] % 32] ^= 1 << (dev['seed'] % 8)
